@@ -449,11 +449,56 @@ def step (cfg : Cfg) (s : St) : Lbl → Option St
   | .recvCtx =>
     if s.recv = .waiting ∧ s.cancelled = true then some { s with recv := .stopped, result := some .ctx } else none
   | .cancel => some { s with cancelled := true }
-  | .closeDone => if s.recv ≠ .waiting then some { s with done := true } else none
+  -- `close(stream.done)` runs once, after `Forward` returned (no `Recv` in progress)
+  | .closeDone => if s.recv ≠ .waiting ∧ s.done = false then some { s with done := true } else none
+  -- `go func() { defer wg.Done(); defer cancel(); socket.ReadLoop() }()`: when the loop returns the call's
+  -- context is cancelled (and `wg.Wait()` in the epilogue is released)
   | .readerExit =>
     match s.reader with
-    | .idle => some { s with reader := .exited }
+    | .idle => some { s with reader := .exited, cancelled := true }
     | _ => none
+
+/-! ## WebSocket: progress of the hand-off (who can move, who waits for whom) -/
+
+/-- `ServeHTTP` has returned: `close(done)` ran and `wg.Wait()` was released by the read-loop goroutine. -/
+def returned (s : St) : Bool := s.done && s.reader == .exited
+
+/-- moves of the environment: the client writes a frame; the request context is cancelled from outside.
+    (`readerExit` — the socket read fails because the client closed or dropped the connection — is the third
+    one while the call is live; once the close frame is out it is forced by the read deadline, see `internalAt`.) -/
+def isEnv : Lbl → Bool
+  | .clientSend _ => true
+  | .cancel => true
+  | _ => false
+
+/-- moves that need nobody outside the bridge: the read loop (`read`, `onDone`, `finishOnMessage`), the
+    rendezvous (`handoff`), `Recv` returning (`recvClosed`, `recvCtx`), and — ENVIRONMENT ASSUMPTION on the
+    forwarder, stated here and nowhere else — the forwarder calling `Recv` again (`recvCall`: in a loop for
+    client streaming, once otherwise) or `Forward` returning (`closeDone`: whenever no `Recv` is in progress;
+    C01/C02 prove that ProxyForwarder returns after a `Recv` error or the end of the target's stream).
+    After `close(done)` the epilogue has set a read deadline (`wsCloseTimeout`), so `ReadLoop` returns even
+    if the client stays silent: `readerExit` is then internal too. -/
+def internalAt (s : St) : Lbl → Bool
+  | .clientSend _ => false
+  | .cancel => false
+  | .readerExit => s.done
+  | _ => true
+
+/-- the one way the call legitimately stands still: `Recv` waits for a frame, the read loop is idle with
+    nothing to read, nobody has cancelled — everything waits for the CLIENT, who can always move
+    (`clientSend`, or close the socket: `readerExit`, which cancels the context) -/
+def awaitingClient (s : St) : Bool :=
+  !s.done && s.recv == .waiting && s.reader == .idle && s.pending.isEmpty && !s.cancelled && !s.eventsClosed
+
+def readerRank : Reader → Nat
+  | .offering _ => 5 | .closing => 2 | .idle => 1 | .exited => 0
+
+def recvRank : RecvSt → Nat
+  | .idle => 2 | .waiting => 1 | .stopped => 0
+
+/-- variant: strictly decreased by every move that is not the environment's -/
+def rank (s : St) : Nat :=
+  6 * s.pending.length + readerRank s.reader + recvRank s.recv + (if s.done then 0 else 1) + (if s.calls = 0 then 1 else 0)
 
 /-! ## WebSocket: the sequential reading of the hand-off (used by the driver and the theorems) -/
 
